@@ -2,3 +2,5 @@
 FUNCTIONS = ['base_server.BaseServer._upgrades', 'base_server.BaseServer._unauthorized',
              'base_server.BaseServer._ok']
 CLAIMED = False
+FUNCTIONS += ['server.Server._handle_connect']
+FUNCTIONS += ['base_server.BaseServer._generate_sid_cookie']
